@@ -1,10 +1,21 @@
 /-
   LDEval.Obligations.Expected — the hand-maintained expectation of every fact factgen extracts from
-  /repo (frozen copy of what the model was written against). The obligation modules prove
-  Generated = Expected; update this file only together with the model when upstream legitimately
-  changes a table.
+  /repo: a frozen copy of what the model was written against (same shape as Generated/Facts.lean).
+  The obligation modules prove Generated = Expected and tie the tables to the model's own; update
+  this file only together with the model, when upstream legitimately changes a table.
+
+  How to read the state facts:
+  * `evalWrites` is the complete set of memory an evaluation writes that it did not allocate in the
+    writing function itself. Everything in it is per-call: `evaluationScope` lives on Evaluate's
+    stack (model: `St.status`, `St.cache`), `evaluationStack` is passed by value and only appended
+    to (model: the immutable chains), `LocalBuffer` and `simpleASCIIScanner` are locals of
+    computeBucketValue / parseRFC3339TimeUTC passed to their own methods. No flag, segment, clause,
+    context, evaluator field or package variable appears.
+  * `evalDynamicCalls` are the only ways an evaluation talks to the outside (model: `flagLookups`,
+    `segLookups`, `bsQueries`, `memChecks`, `events`, `logs`).
 -/
 namespace LD.Expected
+
 
 def longScaleLiteral : Nat := 1152921504606846975
 def initialHashInputBufferSize : Nat := 100
@@ -13,89 +24,329 @@ def preallocatedSegmentChainSize : Nat := 20
 def hashHexDigits : Nat := 15
 
 def operatorConstants : List (String × String) := [("OperatorAfter", "after"), ("OperatorBefore", "before"), ("OperatorContains", "contains"), ("OperatorEndsWith", "endsWith"), ("OperatorGreaterThan", "greaterThan"), ("OperatorGreaterThanOrEqual", "greaterThanOrEqual"), ("OperatorIn", "in"), ("OperatorLessThan", "lessThan"), ("OperatorLessThanOrEqual", "lessThanOrEqual"), ("OperatorMatches", "matches"), ("OperatorSegmentMatch", "segmentMatch"), ("OperatorSemVerEqual", "semVerEqual"), ("OperatorSemVerGreaterThan", "semVerGreaterThan"), ("OperatorSemVerLessThan", "semVerLessThan"), ("OperatorStartsWith", "startsWith")]
-def doOpCases : List String := ["endsWith", "startsWith", "matches", "contains", "lessThan", "lessThanOrEqual", "greaterThan", "greaterThanOrEqual", "before", "after", "semVerEqual", "semVerLessThan", "semVerGreaterThan"]
-def specialOperators : List String := ["matchAny:in", "clauseMatchesContext:segmentMatch"]
+def operatorsDispatched : List String := ["after", "before", "contains", "endsWith", "greaterThan", "greaterThanOrEqual", "in", "lessThan", "lessThanOrEqual", "matches", "segmentMatch", "semVerEqual", "semVerGreaterThan", "semVerLessThan", "startsWith"]
 
 def errorTypes : List String := ["badAttrRefError", "badVariationError", "circularPrereqReferenceError", "circularSegmentReferenceError", "emptyAttrRefError", "emptyRolloutError", "malformedSegmentError"]
 def errorKinds : List (String × String) := [("badAttrRefError", "EvalErrorMalformedFlag"), ("badVariationError", "EvalErrorMalformedFlag"), ("circularPrereqReferenceError", "EvalErrorMalformedFlag"), ("emptyAttrRefError", "EvalErrorMalformedFlag"), ("emptyRolloutError", "EvalErrorMalformedFlag"), ("malformedSegmentError", "EvalErrorMalformedFlag")]
 def errorKindFallback : String := "EvalErrorException"
-def evaluateFirstCheck : String := "(ldcontext.Context).Err() != nil => EvalErrorUserNotSpecified"
+def evaluateFirstCheck : String := "(ldcontext.Context).Err != nil => USER_NOT_SPECIFIED"
 
-def statusPriority : List (String × String) := [("BigSegmentsStale", "1"), ("BigSegmentsStoreError", "2"), ("BigSegmentsNotConfigured", "3"), ("default", "0")]
+def statusPriority : List (String × String) := [("BigSegmentsNotConfigured", "3"), ("BigSegmentsStale", "1"), ("BigSegmentsStoreError", "2"), ("default", "0")]
 def bigSegmentRefFormat : String := "%s.g%d <- (*ldmodel.Segment).Key, (*ldmodel.Segment).Generation.IntValue()"
 
-def stackParams : List (String × String) := [("checkPrerequisites", "evaluationStack"), ("clauseMatchesContext", "evaluationStack"), ("evaluate", "evaluationStack"), ("evaluatePrerequisite", "evaluationStack"), ("ruleMatchesContext", "evaluationStack"), ("segmentContainsContext", "evaluationStack"), ("segmentRuleMatchesContext", "evaluationStack")]
+def stackParamTypes : List String := ["evaluation.evaluationStack"]
+def stackFields : List String := ["prerequisiteFlagChain : []string", "segmentChain : []string"]
 
-def encoderProps : List (String × List (String × String)) := [
-  ("marshalFeatureFlagToWriter", [("key", "always"), ("on", "always"), ("prerequisites", "always"), ("key", "always"), ("variation", "always"), ("targets", "always:writeTargets"), ("contextTargets", "always:writeTargets"), ("rules", "always"), ("id", "conditional"), ("trackEvents", "always"), ("fallthrough", "always"), ("offVariation", "always"), ("variations", "always"), ("clientSideAvailability", "conditional"), ("usingMobileKey", "conditional"), ("usingEnvironmentId", "conditional"), ("clientSide", "always"), ("salt", "always"), ("trackEvents", "always"), ("trackEventsFallthrough", "always"), ("debugEventsUntilDate", "always"), ("version", "always"), ("deleted", "always"), ("migration", "conditional"), ("checkRatio", "conditional"), ("samplingRatio", "conditional"), ("excludeFromSummaries", "conditional")]),
-  ("writeTargets", [("contextKind", "conditional"), ("variation", "always"), ("values", "always:writeStringArray")]),
-  ("marshalSegmentToWriter", [("key", "always"), ("included", "always:writeStringArray"), ("excluded", "always:writeStringArray"), ("includedContexts", "always:writeSegmentTargets"), ("excludedContexts", "always:writeSegmentTargets"), ("salt", "always"), ("rules", "always"), ("id", "always"), ("weight", "conditional"), ("bucketBy", "conditional"), ("rolloutContextKind", "conditional"), ("unbounded", "conditional"), ("unboundedContextKind", "conditional"), ("version", "always"), ("generation", "always"), ("deleted", "always")]),
-  ("writeSegmentTargets", [("contextKind", "conditional"), ("values", "always:writeStringArray")]),
-  ("writeVariationOrRolloutProperties", [("variation", "conditional"), ("rollout", "conditional"), ("kind", "conditional"), ("contextKind", "conditional"), ("variations", "conditional"), ("variation", "conditional"), ("weight", "conditional"), ("untracked", "conditional"), ("seed", "conditional"), ("bucketBy", "conditional")]),
-  ("writeClauses", [("clauses", "always"), ("contextKind", "conditional"), ("attribute", "always"), ("op", "always"), ("values", "always"), ("negate", "always")])
+def flagDecoder : List String := [
+  "flag : Object",
+  "flag/clientSide : Bool",
+  "flag/clientSideAvailability : ObjectOrNull",
+  "flag/clientSideAvailability/usingEnvironmentId : Bool",
+  "flag/clientSideAvailability/usingMobileKey : Bool",
+  "flag/contextTargets : ArrayOrNull",
+  "flag/contextTargets[] : Object",
+  "flag/contextTargets[]/contextKind : String",
+  "flag/contextTargets[]/values : ArrayOrNull",
+  "flag/contextTargets[]/values[] : String",
+  "flag/contextTargets[]/variation : Int",
+  "flag/debugEventsUntilDate : Float64OrNull",
+  "flag/deleted : Bool",
+  "flag/excludeFromSummaries : Bool",
+  "flag/fallthrough : Object",
+  "flag/fallthrough/rollout : ObjectOrNull",
+  "flag/fallthrough/rollout/bucketBy : StringOrNull",
+  "flag/fallthrough/rollout/contextKind : String",
+  "flag/fallthrough/rollout/kind : String",
+  "flag/fallthrough/rollout/seed : IntOrNull",
+  "flag/fallthrough/rollout/variations : Array",
+  "flag/fallthrough/rollout/variations[] : Object",
+  "flag/fallthrough/rollout/variations[]/untracked : Bool",
+  "flag/fallthrough/rollout/variations[]/variation : Int",
+  "flag/fallthrough/rollout/variations[]/weight : Int",
+  "flag/fallthrough/variation : extern (*ldvalue.OptionalInt).ReadFromJSONReader",
+  "flag/key : String",
+  "flag/migration : ObjectOrNull",
+  "flag/migration/checkRatio : Int",
+  "flag/offVariation : extern (*ldvalue.OptionalInt).ReadFromJSONReader",
+  "flag/on : Bool",
+  "flag/prerequisites : ArrayOrNull",
+  "flag/prerequisites[] : Object",
+  "flag/prerequisites[]/key : String",
+  "flag/prerequisites[]/variation : Int",
+  "flag/rules : ArrayOrNull",
+  "flag/rules[] : Object",
+  "flag/rules[]/clauses : ArrayOrNull",
+  "flag/rules[]/clauses[] : Object",
+  "flag/rules[]/clauses[]/attribute : StringOrNull",
+  "flag/rules[]/clauses[]/contextKind : String",
+  "flag/rules[]/clauses[]/negate : Bool",
+  "flag/rules[]/clauses[]/op : String",
+  "flag/rules[]/clauses[]/values : ArrayOrNull",
+  "flag/rules[]/clauses[]/values[] : extern (*ldvalue.Value).ReadFromJSONReader",
+  "flag/rules[]/id : String",
+  "flag/rules[]/rollout : ObjectOrNull",
+  "flag/rules[]/rollout/bucketBy : StringOrNull",
+  "flag/rules[]/rollout/contextKind : String",
+  "flag/rules[]/rollout/kind : String",
+  "flag/rules[]/rollout/seed : IntOrNull",
+  "flag/rules[]/rollout/variations : Array",
+  "flag/rules[]/rollout/variations[] : Object",
+  "flag/rules[]/rollout/variations[]/untracked : Bool",
+  "flag/rules[]/rollout/variations[]/variation : Int",
+  "flag/rules[]/rollout/variations[]/weight : Int",
+  "flag/rules[]/trackEvents : Bool",
+  "flag/rules[]/variation : extern (*ldvalue.OptionalInt).ReadFromJSONReader",
+  "flag/salt : String",
+  "flag/samplingRatio : Int",
+  "flag/targets : ArrayOrNull",
+  "flag/targets[] : Object",
+  "flag/targets[]/contextKind : String",
+  "flag/targets[]/values : ArrayOrNull",
+  "flag/targets[]/values[] : String",
+  "flag/targets[]/variation : Int",
+  "flag/trackEvents : Bool",
+  "flag/trackEventsFallthrough : Bool",
+  "flag/variations : ArrayOrNull",
+  "flag/variations[] : extern (*ldvalue.Value).ReadFromJSONReader",
+  "flag/version : Int"
 ]
-def decoderProps : List (String × List (String × String)) := [
-  ("readFeatureFlag", [("key", "String"), ("on", "Bool"), ("prerequisites", "readPrerequisites"), ("targets", "readTargets"), ("contextTargets", "readTargets"), ("rules", "readFlagRules"), ("fallthrough", "readVariationOrRollout"), ("offVariation", "ReadFromJSONReader"), ("variations", "readValueList"), ("clientSideAvailability", "readClientSideAvailability"), ("clientSide", "Bool"), ("salt", "String"), ("trackEvents", "Bool"), ("trackEventsFallthrough", "Bool"), ("debugEventsUntilDate", "Float64OrNull"), ("version", "Int"), ("deleted", "Bool"), ("excludeFromSummaries", "Bool"), ("samplingRatio", "Int"), ("migration", "readMigration")]),
-  ("readPrerequisites", [("key", "String"), ("variation", "Int")]),
-  ("readTargets", [("contextKind", "String"), ("values", "readStringList"), ("variation", "Int")]),
-  ("readFlagRules", [("id", "String"), ("variation", "ReadFromJSONReader"), ("rollout", "readRollout"), ("clauses", "readClauses"), ("trackEvents", "Bool")]),
-  ("readClauses", [("contextKind", "String"), ("attribute", "StringOrNull"), ("op", "String"), ("values", "readValueList"), ("negate", "Bool")]),
-  ("readVariationOrRollout", [("variation", "ReadFromJSONReader"), ("rollout", "readRollout")]),
-  ("readRollout", [("kind", "String"), ("contextKind", "String"), ("variations", "Array"), ("bucketBy", "StringOrNull"), ("seed", "IntOrNull")]),
-  ("readRollout/1", [("variation", "Int"), ("weight", "Int"), ("untracked", "Bool")]),
-  ("readClientSideAvailability", [("usingEnvironmentId", "Bool"), ("usingMobileKey", "Bool")]),
-  ("readMigration", [("checkRatio", "Int")]),
-  ("readSegment", [("key", "String"), ("version", "Int"), ("generation", "ReadFromJSONReader"), ("deleted", "Bool"), ("included", "readStringList"), ("excluded", "readStringList"), ("includedContexts", "readSegmentTargets"), ("excludedContexts", "readSegmentTargets"), ("rules", "ArrayOrNull"), ("salt", "String"), ("unbounded", "Bool"), ("unboundedContextKind", "String")]),
-  ("readSegment/1", [("id", "String"), ("clauses", "readClauses"), ("weight", "IntOrNull"), ("bucketBy", "StringOrNull"), ("rolloutContextKind", "String")]),
-  ("readSegmentTargets", [("contextKind", "String"), ("values", "readStringList")])
+def flagDecoderKnown : List (String × List String) := [
+  ("flag", ["clientSide", "clientSideAvailability", "contextTargets", "debugEventsUntilDate", "deleted", "excludeFromSummaries", "fallthrough", "key", "migration", "offVariation", "on", "prerequisites", "rules", "salt", "samplingRatio", "targets", "trackEvents", "trackEventsFallthrough", "variations", "version"]),
+  ("flag/clientSideAvailability", ["usingEnvironmentId", "usingMobileKey"]),
+  ("flag/contextTargets[]", ["contextKind", "values", "variation"]),
+  ("flag/fallthrough", ["rollout", "variation"]),
+  ("flag/fallthrough/rollout", ["bucketBy", "contextKind", "kind", "seed", "variations"]),
+  ("flag/fallthrough/rollout/variations[]", ["untracked", "variation", "weight"]),
+  ("flag/migration", ["checkRatio"]),
+  ("flag/prerequisites[]", ["key", "variation"]),
+  ("flag/rules[]", ["clauses", "id", "rollout", "trackEvents", "variation"]),
+  ("flag/rules[]/clauses[]", ["attribute", "contextKind", "negate", "op", "values"]),
+  ("flag/rules[]/rollout", ["bucketBy", "contextKind", "kind", "seed", "variations"]),
+  ("flag/rules[]/rollout/variations[]", ["untracked", "variation", "weight"]),
+  ("flag/targets[]", ["contextKind", "values", "variation"])
 ]
-def decoderOpeners : List (String × String) := [("readFeatureFlag", "Object"), ("readPrerequisites", "ArrayOrNull Object"), ("readTargets", "ArrayOrNull Object"), ("readFlagRules", "ArrayOrNull Object"), ("readClauses", "ArrayOrNull Object"), ("readVariationOrRollout", "Object"), ("readRollout", "ObjectOrNull Array Object"), ("readClientSideAvailability", "ObjectOrNull"), ("readMigration", "ObjectOrNull"), ("readSegment", "Object ArrayOrNull Object"), ("readSegmentTargets", "ArrayOrNull Object"), ("readStringList", "ArrayOrNull"), ("readValueList", "ArrayOrNull")]
-def entryPoints : List (String × String) := [("(*FeatureFlag).UnmarshalEasyJSON", "unmarshalFeatureFlagFromReader"), ("(*FeatureFlag).UnmarshalJSON", "unmarshalFeatureFlagFromBytes"), ("(*Segment).UnmarshalEasyJSON", "unmarshalSegmentFromReader"), ("(*Segment).UnmarshalJSON", "unmarshalSegmentFromBytes"), ("(FeatureFlag).MarshalEasyJSON", "marshalFeatureFlagToWriter"), ("(FeatureFlag).MarshalJSON", "marshalFeatureFlag"), ("(Segment).MarshalEasyJSON", "marshalSegmentToWriter"), ("(Segment).MarshalJSON", "marshalSegment"), ("(jsonDataModelSerialization).MarshalFeatureFlag", "marshalFeatureFlag"), ("(jsonDataModelSerialization).MarshalSegment", "marshalSegment"), ("(jsonDataModelSerialization).UnmarshalFeatureFlag", "unmarshalFeatureFlagFromBytes"), ("(jsonDataModelSerialization).UnmarshalSegment", "unmarshalSegmentFromBytes"), ("MarshalFeatureFlagToJSONWriter", "marshalFeatureFlagToWriter"), ("MarshalSegmentToJSONWriter", "marshalSegmentToWriter"), ("UnmarshalFeatureFlagFromJSONReader", "unmarshalFeatureFlagFromReader"), ("UnmarshalSegmentFromJSONReader", "unmarshalSegmentFromReader"), ("marshalFeatureFlag", "marshalFeatureFlagToWriter"), ("marshalFeatureFlagToWriter", ""), ("marshalSegment", "marshalSegmentToWriter"), ("marshalSegmentToWriter", ""), ("unmarshalFeatureFlagFromBytes", "unmarshalFeatureFlagFromReader"), ("unmarshalFeatureFlagFromReader", "readFeatureFlag PreprocessFlag"), ("unmarshalSegmentFromBytes", "unmarshalSegmentFromReader"), ("unmarshalSegmentFromReader", "readSegment PreprocessSegment")]
+def segmentDecoder : List String := [
+  "segment : Object",
+  "segment/deleted : Bool",
+  "segment/excluded : ArrayOrNull",
+  "segment/excludedContexts : ArrayOrNull",
+  "segment/excludedContexts[] : Object",
+  "segment/excludedContexts[]/contextKind : String",
+  "segment/excludedContexts[]/values : ArrayOrNull",
+  "segment/excludedContexts[]/values[] : String",
+  "segment/excluded[] : String",
+  "segment/generation : extern (*ldvalue.OptionalInt).ReadFromJSONReader",
+  "segment/included : ArrayOrNull",
+  "segment/includedContexts : ArrayOrNull",
+  "segment/includedContexts[] : Object",
+  "segment/includedContexts[]/contextKind : String",
+  "segment/includedContexts[]/values : ArrayOrNull",
+  "segment/includedContexts[]/values[] : String",
+  "segment/included[] : String",
+  "segment/key : String",
+  "segment/rules : ArrayOrNull",
+  "segment/rules[] : Object",
+  "segment/rules[]/bucketBy : StringOrNull",
+  "segment/rules[]/clauses : ArrayOrNull",
+  "segment/rules[]/clauses[] : Object",
+  "segment/rules[]/clauses[]/attribute : StringOrNull",
+  "segment/rules[]/clauses[]/contextKind : String",
+  "segment/rules[]/clauses[]/negate : Bool",
+  "segment/rules[]/clauses[]/op : String",
+  "segment/rules[]/clauses[]/values : ArrayOrNull",
+  "segment/rules[]/clauses[]/values[] : extern (*ldvalue.Value).ReadFromJSONReader",
+  "segment/rules[]/id : String",
+  "segment/rules[]/rolloutContextKind : String",
+  "segment/rules[]/weight : IntOrNull",
+  "segment/salt : String",
+  "segment/unbounded : Bool",
+  "segment/unboundedContextKind : String",
+  "segment/version : Int"
+]
+def segmentDecoderKnown : List (String × List String) := [
+  ("segment", ["deleted", "excluded", "excludedContexts", "generation", "included", "includedContexts", "key", "rules", "salt", "unbounded", "unboundedContextKind", "version"]),
+  ("segment/excludedContexts[]", ["contextKind", "values"]),
+  ("segment/includedContexts[]", ["contextKind", "values"]),
+  ("segment/rules[]", ["bucketBy", "clauses", "id", "rolloutContextKind", "weight"]),
+  ("segment/rules[]/clauses[]", ["attribute", "contextKind", "negate", "op", "values"])
+]
+def flagEncoder : List String := [
+  "flag = Object",
+  "flag/clientSide : always",
+  "flag/clientSideAvailability : conditional",
+  "flag/clientSideAvailability = Object",
+  "flag/clientSideAvailability/usingEnvironmentId : always",
+  "flag/clientSideAvailability/usingMobileKey : always",
+  "flag/contextTargets : always",
+  "flag/contextTargets = Array",
+  "flag/contextTargets[] = Object",
+  "flag/contextTargets[]/contextKind : conditional",
+  "flag/contextTargets[]/values : always",
+  "flag/contextTargets[]/values = Array",
+  "flag/contextTargets[]/variation : always",
+  "flag/debugEventsUntilDate : always",
+  "flag/deleted : always",
+  "flag/excludeFromSummaries : conditional",
+  "flag/fallthrough : always",
+  "flag/fallthrough = Object",
+  "flag/fallthrough/rollout : conditional",
+  "flag/fallthrough/rollout = Object",
+  "flag/fallthrough/rollout/bucketBy : conditional",
+  "flag/fallthrough/rollout/contextKind : conditional",
+  "flag/fallthrough/rollout/kind : conditional",
+  "flag/fallthrough/rollout/seed : conditional",
+  "flag/fallthrough/rollout/variations : always",
+  "flag/fallthrough/rollout/variations = Array",
+  "flag/fallthrough/rollout/variations[] = Object",
+  "flag/fallthrough/rollout/variations[]/untracked : conditional",
+  "flag/fallthrough/rollout/variations[]/variation : always",
+  "flag/fallthrough/rollout/variations[]/weight : always",
+  "flag/fallthrough/variation : conditional",
+  "flag/key : always",
+  "flag/migration : conditional",
+  "flag/migration = Object",
+  "flag/migration/checkRatio : conditional",
+  "flag/offVariation : always",
+  "flag/on : always",
+  "flag/prerequisites : always",
+  "flag/prerequisites = Array",
+  "flag/prerequisites[] = Object",
+  "flag/prerequisites[]/key : always",
+  "flag/prerequisites[]/variation : always",
+  "flag/rules : always",
+  "flag/rules = Array",
+  "flag/rules[] = Object",
+  "flag/rules[]/clauses : always",
+  "flag/rules[]/clauses = Array",
+  "flag/rules[]/clauses[] = Object",
+  "flag/rules[]/clauses[]/attribute : always",
+  "flag/rules[]/clauses[]/contextKind : conditional",
+  "flag/rules[]/clauses[]/negate : always",
+  "flag/rules[]/clauses[]/op : always",
+  "flag/rules[]/clauses[]/values : always",
+  "flag/rules[]/clauses[]/values = Array",
+  "flag/rules[]/id : conditional",
+  "flag/rules[]/rollout : conditional",
+  "flag/rules[]/rollout = Object",
+  "flag/rules[]/rollout/bucketBy : conditional",
+  "flag/rules[]/rollout/contextKind : conditional",
+  "flag/rules[]/rollout/kind : conditional",
+  "flag/rules[]/rollout/seed : conditional",
+  "flag/rules[]/rollout/variations : always",
+  "flag/rules[]/rollout/variations = Array",
+  "flag/rules[]/rollout/variations[] = Object",
+  "flag/rules[]/rollout/variations[]/untracked : conditional",
+  "flag/rules[]/rollout/variations[]/variation : always",
+  "flag/rules[]/rollout/variations[]/weight : always",
+  "flag/rules[]/trackEvents : always",
+  "flag/rules[]/variation : conditional",
+  "flag/salt : always",
+  "flag/samplingRatio : conditional",
+  "flag/targets : always",
+  "flag/targets = Array",
+  "flag/targets[] = Object",
+  "flag/targets[]/contextKind : conditional",
+  "flag/targets[]/values : always",
+  "flag/targets[]/values = Array",
+  "flag/targets[]/variation : always",
+  "flag/trackEvents : always",
+  "flag/trackEventsFallthrough : always",
+  "flag/variations : always",
+  "flag/variations = Array",
+  "flag/version : always"
+]
+def flagEncoderAlways : List (String × List String) := [
+  ("flag", ["clientSide", "contextTargets", "debugEventsUntilDate", "deleted", "fallthrough", "key", "offVariation", "on", "prerequisites", "rules", "salt", "targets", "trackEvents", "trackEventsFallthrough", "variations", "version"]),
+  ("flag/clientSideAvailability", ["usingEnvironmentId", "usingMobileKey"]),
+  ("flag/contextTargets[]", ["values", "variation"]),
+  ("flag/fallthrough", []),
+  ("flag/fallthrough/rollout", ["variations"]),
+  ("flag/fallthrough/rollout/variations[]", ["variation", "weight"]),
+  ("flag/migration", []),
+  ("flag/prerequisites[]", ["key", "variation"]),
+  ("flag/rules[]", ["clauses", "trackEvents"]),
+  ("flag/rules[]/clauses[]", ["attribute", "negate", "op", "values"]),
+  ("flag/rules[]/rollout", ["variations"]),
+  ("flag/rules[]/rollout/variations[]", ["variation", "weight"]),
+  ("flag/targets[]", ["values", "variation"])
+]
+def segmentEncoder : List String := [
+  "segment = Object",
+  "segment/deleted : always",
+  "segment/excluded : always",
+  "segment/excluded = Array",
+  "segment/excludedContexts : always",
+  "segment/excludedContexts = Array",
+  "segment/excludedContexts[] = Object",
+  "segment/excludedContexts[]/contextKind : conditional",
+  "segment/excludedContexts[]/values : always",
+  "segment/excludedContexts[]/values = Array",
+  "segment/generation : always",
+  "segment/included : always",
+  "segment/included = Array",
+  "segment/includedContexts : always",
+  "segment/includedContexts = Array",
+  "segment/includedContexts[] = Object",
+  "segment/includedContexts[]/contextKind : conditional",
+  "segment/includedContexts[]/values : always",
+  "segment/includedContexts[]/values = Array",
+  "segment/key : always",
+  "segment/rules : always",
+  "segment/rules = Array",
+  "segment/rules[] = Object",
+  "segment/rules[]/bucketBy : conditional",
+  "segment/rules[]/clauses : always",
+  "segment/rules[]/clauses = Array",
+  "segment/rules[]/clauses[] = Object",
+  "segment/rules[]/clauses[]/attribute : always",
+  "segment/rules[]/clauses[]/contextKind : conditional",
+  "segment/rules[]/clauses[]/negate : always",
+  "segment/rules[]/clauses[]/op : always",
+  "segment/rules[]/clauses[]/values : always",
+  "segment/rules[]/clauses[]/values = Array",
+  "segment/rules[]/id : always",
+  "segment/rules[]/rolloutContextKind : conditional",
+  "segment/rules[]/weight : conditional",
+  "segment/salt : always",
+  "segment/unbounded : conditional",
+  "segment/unboundedContextKind : conditional",
+  "segment/version : always"
+]
+def segmentEncoderAlways : List (String × List String) := [
+  ("segment", ["deleted", "excluded", "excludedContexts", "generation", "included", "includedContexts", "key", "rules", "salt", "version"]),
+  ("segment/excludedContexts[]", ["values"]),
+  ("segment/includedContexts[]", ["values"]),
+  ("segment/rules[]", ["clauses", "id"]),
+  ("segment/rules[]/clauses[]", ["attribute", "negate", "op", "values"])
+]
+def entryPoints : List (String × String) := [("(*FeatureFlag).UnmarshalJSON", "PreprocessFlag readFeatureFlag"), ("(*Segment).UnmarshalJSON", "PreprocessSegment readSegment"), ("(FeatureFlag).MarshalJSON", "marshalFeatureFlagToWriter"), ("(Segment).MarshalJSON", "marshalSegmentToWriter"), ("(jsonDataModelSerialization).MarshalFeatureFlag", "marshalFeatureFlagToWriter"), ("(jsonDataModelSerialization).MarshalSegment", "marshalSegmentToWriter"), ("(jsonDataModelSerialization).UnmarshalFeatureFlag", "PreprocessFlag readFeatureFlag"), ("(jsonDataModelSerialization).UnmarshalSegment", "PreprocessSegment readSegment"), ("MarshalFeatureFlagToJSONWriter", "marshalFeatureFlagToWriter"), ("MarshalSegmentToJSONWriter", "marshalSegmentToWriter"), ("UnmarshalFeatureFlagFromJSONReader", "PreprocessFlag readFeatureFlag"), ("UnmarshalSegmentFromJSONReader", "PreprocessSegment readSegment"), ("easyjson:(*FeatureFlag).UnmarshalEasyJSON", "PreprocessFlag readFeatureFlag"), ("easyjson:(*Segment).UnmarshalEasyJSON", "PreprocessSegment readSegment"), ("easyjson:(FeatureFlag).MarshalEasyJSON", "marshalFeatureFlagToWriter"), ("easyjson:(Segment).MarshalEasyJSON", "marshalSegmentToWriter")]
 
-def packageVars : List String := ["ldmodel.EvaluatorAccessors : EvaluatorAccessorMethods", "ldmodel.TypeConversions : TypeConversionMethods"]
-def sharedWrites : List String := [
-  "evaluation.(evaluatorOptionBigSegmentProvider).apply: (*evaluator).bigSegmentProvider",
-  "evaluation.(evaluatorOptionEnableSecondaryKey).apply: (*evaluator).enableSecondaryKey",
-  "evaluation.(evaluatorOptionErrorLogger).apply: (*evaluator).errorLogger",
-  "ldmodel.(*FeatureFlag).UnmarshalJSON: *(*FeatureFlag)",
-  "ldmodel.(*Segment).UnmarshalJSON: *(*Segment)",
-  "ldmodel.PreprocessFlag: (*FeatureFlag).Rules[].Clauses[].preprocessed",
-  "ldmodel.PreprocessFlag: (*FeatureFlag).Targets[].preprocessed.valuesMap",
-  "ldmodel.PreprocessSegment: (*Segment).ExcludedContexts[].preprocessed.valuesMap",
-  "ldmodel.PreprocessSegment: (*Segment).IncludedContexts[].preprocessed.valuesMap",
-  "ldmodel.PreprocessSegment: (*Segment).Rules[].Clauses[].preprocessed",
-  "ldmodel.PreprocessSegment: (*Segment).preprocessed",
-  "ldmodel.readClauses: *(*[]Clause)",
-  "ldmodel.readFeatureFlag: (*FeatureFlag).ClientSideAvailability",
-  "ldmodel.readFeatureFlag: (*FeatureFlag).DebugEventsUntilDate",
-  "ldmodel.readFeatureFlag: (*FeatureFlag).Deleted",
-  "ldmodel.readFeatureFlag: (*FeatureFlag).ExcludeFromSummaries",
-  "ldmodel.readFeatureFlag: (*FeatureFlag).Key",
-  "ldmodel.readFeatureFlag: (*FeatureFlag).On",
-  "ldmodel.readFeatureFlag: (*FeatureFlag).Salt",
-  "ldmodel.readFeatureFlag: (*FeatureFlag).SamplingRatio",
-  "ldmodel.readFeatureFlag: (*FeatureFlag).TrackEvents",
-  "ldmodel.readFeatureFlag: (*FeatureFlag).TrackEventsFallthrough",
-  "ldmodel.readFeatureFlag: (*FeatureFlag).Version",
-  "ldmodel.readFlagRules: *(*[]FlagRule)",
-  "ldmodel.readMigration: (*FeatureFlag).Migration",
-  "ldmodel.readMigration: (*FeatureFlag).Migration.CheckRatio",
-  "ldmodel.readPrerequisites: *(*[]Prerequisite)",
-  "ldmodel.readRollout: (*Rollout).ContextKind",
-  "ldmodel.readRollout: (*Rollout).Kind",
-  "ldmodel.readRollout: (*Rollout).Seed",
-  "ldmodel.readRollout: (*Rollout).Variations",
-  "ldmodel.readRollout: *(*Rollout)",
-  "ldmodel.readSegment: (*Segment).Deleted",
-  "ldmodel.readSegment: (*Segment).Key",
-  "ldmodel.readSegment: (*Segment).Rules",
-  "ldmodel.readSegment: (*Segment).Salt",
-  "ldmodel.readSegment: (*Segment).Unbounded",
-  "ldmodel.readSegment: (*Segment).UnboundedContextKind",
-  "ldmodel.readSegment: (*Segment).Version",
-  "ldmodel.readSegmentTargets: *(*[]SegmentTarget)",
-  "ldmodel.readTargets: *(*[]Target)"
+def packageVars : List String := ["ldmodel.EvaluatorAccessors : ldmodel.EvaluatorAccessorMethods", "ldmodel.TypeConversions : ldmodel.TypeConversionMethods"]
+def stateFields : List String := ["evaluationScope.bigSegmentsMemberships : map[string]evaluation.BigSegmentMembership", "evaluationScope.bigSegmentsStatus : ldreason.BigSegmentsStatus", "evaluationScope.context : ldcontext.Context", "evaluationScope.flag : *ldmodel.FeatureFlag", "evaluationScope.owner : *evaluation.evaluator", "evaluationScope.prerequisiteFlagEventRecorder : evaluation.PrerequisiteFlagEventRecorder", "evaluator.bigSegmentProvider : evaluation.BigSegmentProvider", "evaluator.dataProvider : evaluation.DataProvider", "evaluator.enableSecondaryKey : bool", "evaluator.errorLogger : ldlog.BaseLogger"]
+def evalWrites : List String := [
+  "append *evaluationStack.prerequisiteFlagChain",
+  "append *evaluationStack.segmentChain",
+  "copy *LocalBuffer.Data",
+  "map update *evaluationScope.bigSegmentsMemberships",
+  "store *LocalBuffer.Data[]",
+  "store LocalBuffer.Data",
+  "store evaluationScope.bigSegmentsMemberships",
+  "store evaluationScope.bigSegmentsStatus",
+  "store simpleASCIIScanner.pos"
 ]
-def stateFields : List String := ["evaluator.dataProvider : DataProvider", "evaluator.bigSegmentProvider : BigSegmentProvider", "evaluator.errorLogger : ldlog.BaseLogger", "evaluator.enableSecondaryKey : bool", "evaluationScope.owner : *evaluator", "evaluationScope.flag : *ldmodel.FeatureFlag", "evaluationScope.context : ldcontext.Context", "evaluationScope.prerequisiteFlagEventRecorder : PrerequisiteFlagEventRecorder", "evaluationScope.bigSegmentsMemberships : map[string]BigSegmentMembership", "evaluationScope.bigSegmentsStatus : ldreason.BigSegmentsStatus"]
+def evalDynamicCalls : List String := [
+  "call evaluation.PrerequisiteFlagEventRecorder",
+  "invoke evaluation.BigSegmentMembership.CheckMembership",
+  "invoke evaluation.BigSegmentProvider.GetMembership",
+  "invoke evaluation.DataProvider.GetFeatureFlag",
+  "invoke evaluation.DataProvider.GetSegment",
+  "invoke evaluation.evalError.errorKind",
+  "invoke ldlog.BaseLogger.Printf"
+]
+def evaluatorWrites : List String := [
+  "evaluation.(evaluatorOptionBigSegmentProvider).apply: store evaluator.bigSegmentProvider",
+  "evaluation.(evaluatorOptionEnableSecondaryKey).apply: store evaluator.enableSecondaryKey",
+  "evaluation.(evaluatorOptionErrorLogger).apply: store evaluator.errorLogger"
+]
 
 end LD.Expected
